@@ -111,6 +111,9 @@ func Scenarios() []History {
 		{Name: "UpdateBinding", Signer: "o1", Svc: "s1", Prov: "p1", HasPr: true, Pr: pr(100), Deposit: 188, DShape: "ok"},
 		{Name: "UpdateBinding", Signer: "o1", Svc: "s1", Prov: "p1", HasPr: true, Pr: pr(1)},
 		{Name: "UpdateBinding", Signer: "o1", Svc: "s1", Prov: "p1", Qos: 3},
+		{Name: "Bind", Signer: "o1", Svc: "s1", Prov: "p2", Deposit: 12, DShape: "ok", Pr: pr(0), Qos: 1},
+		{Name: "UpdateBinding", Signer: "o1", Svc: "s1", Prov: "p2", HasPr: true, Pr: pr(100)}, // a raise from a price of 0
+		{Name: "Bind", Signer: "o1", Svc: "s1", Prov: "p3", Deposit: 150, DShape: "ok", Pr: pr(100), Qos: 1}, // above the global minimum only
 	}
 	add("D3-price-increase", smallParams(), nil, ops...)
 
@@ -373,6 +376,47 @@ func Scenarios() []History {
 	)
 	add("same-block-one-budget", smallParams(), map[string]int64{"c1": 7}, ops...)
 
+	// several contexts of one consumer due in one block, the first one unaffordable, a later one affordable
+	ops = registry(map[string]int64{"p1": 9, "p2": 2})
+	ops = append(ops,
+		Ev{Name: "Call", Signer: "c1", Svc: "s1", Provs: []string{"p1"}, Cap: 10, Timeout: 2},
+		Ev{Name: "Call", Signer: "c1", Svc: "s1", Provs: []string{"p2"}, Cap: 10, Timeout: 2},
+		Ev{Name: "Call", Signer: "c1", Svc: "s1", Provs: []string{"p1", "p2"}, Cap: 10, Timeout: 2},
+		Ev{Name: "Call", Signer: "c1", Svc: "s1", Provs: []string{"p2"}, Cap: 10, Timeout: 2},
+		eb(1), eb(1), eb(1), eb(1),
+	)
+	add("same-block-mixed-prices", smallParams(), map[string]int64{"c1": 5}, ops...)
+
+	// a module context with a single provider; a provider whose address contains a zero byte; the
+	// middle one of three providers not eligible; role aliasing (an owner's account is another owner's provider)
+	ops = []Ev{
+		{Name: "Define", Signer: "o1", Svc: "s1"},
+		{Name: "Bind", Signer: "o1", Svc: "s1", Prov: "p1", Deposit: 40, DShape: "ok", Pr: pr(5), Qos: 1},
+		{Name: "Bind", Signer: "o1", Svc: "s1", Prov: "pz", Deposit: 40, DShape: "ok", Pr: pr(3), Qos: 1},
+		{Name: "Bind", Signer: "o1", Svc: "s1", Prov: "p3", Deposit: 40, DShape: "ok", Pr: pr(4), Qos: 1},
+		{Name: "Bind", Signer: "o2", Svc: "s1", Prov: "o1", Deposit: 40, DShape: "ok", Pr: pr(2), Qos: 1}, // o1's account, owned by o2
+		{Name: "SetWithdrawAddr", Signer: "o1", Addr: "w1"},
+		{Name: "SetWithdrawAddr", Signer: "o2", Addr: "c2"},
+		{Name: "Obs"},
+		{Name: "ModCreate", Signer: "c1", Svc: "s1", Provs: []string{"p1"}, Cap: 10, Timeout: 2, Rep: true, Freq: 2, Total: 2, Thr: 1},
+		{Name: "Disable", Signer: "o1", Svc: "s1", Prov: "pz"},
+		{Name: "Call", Signer: "c2", Svc: "s1", Provs: []string{"p1", "pz", "p3"}, Cap: 10, Timeout: 2},
+		{Name: "Call", Signer: "c2", Svc: "s1", Provs: []string{"o1", "p3"}, Cap: 10, Timeout: 2},
+		eb(1),
+		{Name: "Respond", Signer: "p1", Rid: rid(1, 1, 1, 0), Kind: "valid"},
+		{Name: "Respond", Signer: "p1", Rid: rid(2, 1, 1, 0), Kind: "valid"},
+		{Name: "Respond", Signer: "p3", Rid: rid(2, 1, 1, 1), Kind: "valid"},
+		{Name: "Respond", Signer: "o1", Rid: rid(3, 1, 1, 0), Kind: "valid"},
+		{Name: "Enable", Signer: "o1", Svc: "s1", Prov: "pz"},
+		{Name: "Obs"},
+		{Name: "Withdraw", Signer: "o1", Prov: "pz"}, // a provider without earnings
+		{Name: "Withdraw", Signer: "o1", Prov: "p1"},
+		{Name: "Withdraw", Signer: "o1"},
+		{Name: "Withdraw", Signer: "o2"},
+		eb(1), eb(1), eb(1),
+	}
+	add("odd-shapes", smallParams(), map[string]int64{"c1": 100, "c2": 100}, ops...)
+
 	// zero-height export with pending requests, earnings, a withdrawal address, a killed and a paused context
 	ops = registry(map[string]int64{"p1": 5, "p2": 3})
 	ops = append(ops,
@@ -399,6 +443,27 @@ func Scenarios() []History {
 	ops = registry(map[string]int64{"p1": 5})
 	ops = append(ops, Ev{Name: "Disable", Signer: "o1", Svc: "s1", Prov: "p1"}, eb(3), Ev{Name: "PrepZeroHeight"}, Ev{Name: "Genesis"})
 	add("genesis-registry", smallParams(), nil, ops...)
+
+	// zero-height export with a refunded binding (empty deposit) and a provider that serves two services and has earnings
+	ops = []Ev{
+		{Name: "Define", Signer: "o1", Svc: "s1"},
+		{Name: "Define", Signer: "o1", Svc: "s2"},
+		{Name: "Bind", Signer: "o1", Svc: "s1", Prov: "p1", Deposit: 40, DShape: "ok", Pr: pr(5), Qos: 1},
+		{Name: "Bind", Signer: "o1", Svc: "s2", Prov: "p1", Deposit: 40, DShape: "ok", Pr: pr(4), Qos: 1},
+		{Name: "Bind", Signer: "o2", Svc: "s1", Prov: "p2", Deposit: 40, DShape: "ok", Pr: pr(3), Qos: 1},
+		{Name: "Bind", Signer: "o2", Svc: "s2", Prov: "p3", Deposit: 40, DShape: "ok", Pr: pr(3), Qos: 1},
+		{Name: "Disable", Signer: "o2", Svc: "s2", Prov: "p3"},
+		{Name: "Call", Signer: "c1", Svc: "s1", Provs: []string{"p1", "p2"}, Cap: 10, Timeout: 9},
+		{Name: "Call", Signer: "c1", Svc: "s2", Provs: []string{"p1"}, Cap: 10, Timeout: 9},
+		eb(3),
+		{Name: "Respond", Signer: "p1", Rid: rid(1, 1, 1, 0), Kind: "valid"},
+		{Name: "Respond", Signer: "p1", Rid: rid(2, 1, 1, 0), Kind: "valid"},
+		eb(3),
+		{Name: "RefundDeposit", Signer: "o2", Svc: "s2", Prov: "p3"},
+		{Name: "PrepZeroHeight"},
+		{Name: "Genesis"},
+	}
+	add("genesis-refunded-and-shared-provider", &MParams{MaxTimeout: 10, Multiple: 2, MinDeposit: 10, Tax: 100, Slash: 100, RefundDelay: 6}, nil, ops...)
 
 	// ---- known findings (recorded, not repaired): see known_findings.json
 
